@@ -91,3 +91,43 @@ func VerifC06_Slot() {
 		}
 	}
 }
+
+// VerifC06_Read: whispertool reads a file exactly as the classic format rule says: the value of
+// interval T in an archive is the float stored in slot ((T-base)/S floor-mod N) iff that slot's
+// stored interval is T, and absent (NaN) otherwise - whoever wrote the bytes (any image whose
+// base is aligned; slots may hold newer or older laps, as a reference writer leaves them).
+func VerifC06_Read() {
+	h := vrtChooseHeaderFrom([]string{"1s:2s", "5s:15s", "1s:2s,2s:6s"}, Sum, 0.5)
+	img, sl := vrtSymbolicImage(h, "s")
+	now := vrtInstant(h, "now")
+	vrtAssumeClock(h, now)
+	for ai := range h.archiveInfoList {
+		vrtAssumeNear(h, now, sl.t[ai][0])
+	}
+	w := vrtOpenImage("c06r.wsp", img)
+	ai := vrt.Choose("archive", len(h.archiveInfoList))
+	a := h.archiveInfoList[ai]
+	from := vrtInstant(h, "from")
+	until := vrtInstant(h, "until")
+	vrt.Reach("pre")
+	ts, err := w.FetchFromArchive(ai, from, until, now)
+	if err != nil || ts == nil {
+		return
+	}
+	vrt.Reach("series")
+	base := refBE32(img, int(a.offset))
+	for i, got := range ts.values {
+		t := ts.fromTime.Add(Duration(i) * ts.step)
+		if base == 0 {
+			vrt.Assert(got.IsNaN(), "C06.read empty archive reads as absent")
+			continue
+		}
+		j := refIndex(Timestamp(base), t, a.secondsPerPoint, a.numberOfPoints)
+		rec := int(a.offset) + 12*j
+		if refBE32(img, rec) == uint32(t) {
+			vrt.Assert(vrt.F64Bits(float64(got)) == refBE64(img, rec+4), "C06.read value of the slot addressed by the format rule")
+		} else {
+			vrt.Assert(got.IsNaN(), "C06.read a slot holding another interval reads as absent")
+		}
+	}
+}
